@@ -1,4 +1,5 @@
 use std::collections::{BTreeMap, HashMap, HashSet};
+use std::convert::TryFrom;
 use std::hash::{Hash, Hasher};
 use std::ops::Add;
 
@@ -525,10 +526,16 @@ impl GroupAggregator {
                 );
                 *count += 1;
 
+                // An interval is divided by a 32-bit number: more rows than that is an error, not a wrapped around divisor
+                let interval_count = match (&*sum, i32::try_from(*count)) {
+                    (Value::Interval(_), Err(_)) => { return Err(ExecutionError::Expression(EvaluationError::IntegerOverflow)); }
+                    (_, interval_count) => interval_count.unwrap_or(i32::MAX)
+                };
+
                 let average = sum.map_numeric(
                     |x| Some(x / *count),
                     |x| Some(x / *count as f64),
-                    |x| Some(x / *count as i32)
+                    |x| Some(x / interval_count)
                 );
 
                 Ok(average)
